@@ -232,6 +232,9 @@ def _reparse_raw_stmtlike(self: fst.FST, new_lines: list[str], ln: int, col: int
 
         copya = (parse_match_case if is_match_case else parse_ExceptHandler)('\n'.join(copy_lines), root._parse_params)  # copy_lines are copy_root._lines since lcopy was False
 
+        if in_blkhead and not _is_header_scaffold(copya):  # the new header text brought statements of its own, the old body cannot just be reused
+            raise _ReparseAll
+
         if not in_blkhead:  # if not just head then we just put the new source to offset everything maybe around us properly
             root._put_src(new_lines, ln, col, end_ln, end_col, True, True, stmtlike)  # will copy over entire AST so don't need to offset current children of stmtlike
 
